@@ -272,6 +272,236 @@ impl Gen<'_> {
     }
 }
 
+
+/// statements of the loop layer (`Model/CompileLoop.lean`, `Stmt`)
+#[derive(Clone, Debug)]
+enum St {
+    Expr(E),
+    Seq(Box<St>, Box<St>),
+    Ite(E, Box<St>, Box<St>),
+    IfThen(E, Box<St>),
+    While(E, Box<St>),
+    Until(E, Box<St>),
+    Loop(Box<St>),
+    Break,
+    Continue,
+}
+
+fn st_sexp(s: &St) -> String {
+    match s {
+        St::Expr(e) => format!("(expr {})", sexp(e)),
+        St::Seq(a, b) => format!("(sseq {} {})", st_sexp(a), st_sexp(b)),
+        St::Ite(c, t, f) => format!("(site {} {} {})", sexp(c), st_sexp(t), st_sexp(f)),
+        St::IfThen(c, t) => format!("(sifthen {} {})", sexp(c), st_sexp(t)),
+        St::While(c, b) => format!("(while {} {})", sexp(c), st_sexp(b)),
+        St::Until(c, b) => format!("(until {} {})", sexp(c), st_sexp(b)),
+        St::Loop(b) => format!("(loop {})", st_sexp(b)),
+        St::Break => "(break)".into(),
+        St::Continue => "(continue)".into(),
+    }
+}
+
+fn st_size(s: &St) -> usize {
+    match s {
+        St::Expr(e) => size(e),
+        St::Seq(a, b) => st_size(a) + st_size(b),
+        St::Ite(c, t, f) => 1 + size(c) + st_size(t) + st_size(f),
+        St::IfThen(c, t) | St::While(c, t) | St::Until(c, t) => 1 + size(c) + st_size(t),
+        St::Loop(b) => 1 + st_size(b),
+        St::Break | St::Continue => 1,
+    }
+}
+
+/// a condition after `if` / `while` / `until`: an assignment or an inline `if` is parenthesised
+fn cond_text(c: &E) -> String {
+    match c {
+        E::Assign(..) | E::Compound(..) | E::Ite(..) | E::IfThen(..) => format!("({})", inline(c)),
+        _ => inline(c),
+    }
+}
+
+/// `break` / `continue` / a Seq-free expression: can be written after an inline `then`
+fn st_inline(s: &St) -> Option<String> {
+    match s {
+        St::Break => Some("break".into()),
+        St::Continue => Some("continue".into()),
+        St::Expr(e) if !has_seq(e) => Some(inline_paren(e)),
+        _ => None,
+    }
+}
+
+fn st_render(s: &St, indent: usize, inline_ifs: bool, out: &mut String) {
+    let pad = " ".repeat(indent);
+    match s {
+        St::Expr(e) => stmt(e, indent, out),
+        St::Seq(a, b) => {
+            st_render(a, indent, inline_ifs, out);
+            st_render(b, indent, inline_ifs, out);
+        }
+        St::Ite(c, t, f) => {
+            if let (true, Some(ti), Some(fi)) = (inline_ifs, st_inline(t), st_inline(f)) {
+                out.push_str(&format!("{}if {} then {} else {}\n", pad, cond_text(c), ti, fi));
+            } else {
+                out.push_str(&format!("{}if {}\n", pad, cond_text(c)));
+                st_render(t, indent + 2, inline_ifs, out);
+                out.push_str(&format!("{}else\n", pad));
+                st_render(f, indent + 2, inline_ifs, out);
+            }
+        }
+        St::IfThen(c, t) => {
+            if let (true, Some(ti)) = (inline_ifs, st_inline(t)) {
+                out.push_str(&format!("{}if {} then {}\n", pad, cond_text(c), ti));
+            } else {
+                out.push_str(&format!("{}if {}\n", pad, cond_text(c)));
+                st_render(t, indent + 2, inline_ifs, out);
+            }
+        }
+        St::While(c, b) => {
+            out.push_str(&format!("{}while {}\n", pad, cond_text(c)));
+            st_render(b, indent + 2, inline_ifs, out);
+        }
+        St::Until(c, b) => {
+            out.push_str(&format!("{}until {}\n", pad, cond_text(c)));
+            st_render(b, indent + 2, inline_ifs, out);
+        }
+        St::Loop(b) => {
+            out.push_str(&format!("{}loop\n", pad));
+            st_render(b, indent + 2, inline_ifs, out);
+        }
+        St::Break => out.push_str(&format!("{}break\n", pad)),
+        St::Continue => out.push_str(&format!("{}continue\n", pad)),
+    }
+}
+
+/// distribution of one statement program
+#[derive(Default)]
+struct StStats {
+    whiles: usize,
+    untils: usize,
+    loops: usize,
+    breaks: usize,
+    continues: usize,
+    max_loop_depth: usize,
+    /// deepest `if` nesting (inside the innermost loop) at which a break / continue occurs
+    max_ctl_if_depth: usize,
+    /// a break / continue that is not the last statement of its block
+    ctl_not_last: usize,
+    ifs: usize,
+}
+
+fn st_stats(s: &St, loop_depth: usize, if_depth: usize, last: bool, st: &mut StStats) {
+    match s {
+        St::Expr(_) => {}
+        St::Seq(a, b) => {
+            st_stats(a, loop_depth, if_depth, false, st);
+            st_stats(b, loop_depth, if_depth, last, st);
+        }
+        St::Ite(_, t, f) => {
+            st.ifs += 1;
+            st_stats(t, loop_depth, if_depth + 1, true, st);
+            st_stats(f, loop_depth, if_depth + 1, true, st);
+        }
+        St::IfThen(_, t) => {
+            st.ifs += 1;
+            st_stats(t, loop_depth, if_depth + 1, true, st);
+        }
+        St::While(_, b) | St::Until(_, b) | St::Loop(b) => {
+            match s {
+                St::While(..) => st.whiles += 1,
+                St::Until(..) => st.untils += 1,
+                _ => st.loops += 1,
+            }
+            st.max_loop_depth = st.max_loop_depth.max(loop_depth + 1);
+            st_stats(b, loop_depth + 1, 0, true, st);
+        }
+        St::Break | St::Continue => {
+            if matches!(s, St::Break) {
+                st.breaks += 1;
+            } else {
+                st.continues += 1;
+            }
+            st.max_ctl_if_depth = st.max_ctl_if_depth.max(if_depth);
+            if !last {
+                st.ctl_not_last += 1;
+            }
+        }
+    }
+}
+
+impl Gen<'_> {
+    fn sblock(&mut self, n: usize, depth: usize, loop_depth: usize) -> St {
+        let mut items = vec![];
+        for _ in 0..n {
+            items.push(self.sstmt(depth, loop_depth));
+        }
+        let mut it = items.into_iter().rev();
+        let mut acc = it.next().unwrap();
+        for s in it {
+            acc = St::Seq(Box::new(s), Box::new(acc));
+        }
+        acc
+    }
+    /// an expression statement that makes progress: assignment / compound assignment / any
+    fn sexpr(&mut self, depth: usize) -> E {
+        let av: Vec<usize> = (0..self.nvars).filter(|i| self.assigned[*i]).collect();
+        match self.rng.below(4) {
+            0 if !av.is_empty() => {
+                let x = *self.rng.pick(&av);
+                let op = *self.rng.pick(&["add", "sub", "mul"]);
+                let a = self.expr(depth.min(1));
+                E::Compound(op, x, Box::new(a))
+            }
+            1 => {
+                let x = self.rng.below(self.nvars);
+                let a = self.expr(depth.min(2));
+                self.assigned[x] = true;
+                E::Assign(x, Box::new(a))
+            }
+            _ => self.stmt(depth.min(2)),
+        }
+    }
+    fn sstmt(&mut self, depth: usize, loop_depth: usize) -> St {
+        let in_loop = loop_depth > 0;
+        let can_nest = depth > 0;
+        let w_loop = if can_nest && loop_depth < 3 { 5 } else { 0 };
+        let w_if = if can_nest { 5 } else { 0 };
+        let w_ctl = if in_loop { 4 } else { 0 };
+        match self.rng.weighted(&[6, w_if, w_loop, w_ctl]) {
+            0 => St::Expr(self.sexpr(depth)),
+            1 => {
+                let c = self.expr(depth.min(2));
+                let nt = 1 + self.rng.below(3);
+                let t = self.sblock(nt, depth - 1, loop_depth);
+                if self.rng.chance(1, 2) {
+                    let nf = 1 + self.rng.below(3);
+                    let f = self.sblock(nf, depth - 1, loop_depth);
+                    St::Ite(c, Box::new(t), Box::new(f))
+                } else {
+                    St::IfThen(c, Box::new(t))
+                }
+            }
+            2 => {
+                let kind = self.rng.below(3);
+                let c = if kind < 2 { Some(self.expr(depth.min(2))) } else { None };
+                let nb = 1 + self.rng.below(4);
+                let b = self.sblock(nb, depth - 1, loop_depth + 1);
+                match (kind, c) {
+                    (0, Some(c)) => St::While(c, Box::new(b)),
+                    (1, Some(c)) => St::Until(c, Box::new(b)),
+                    _ => St::Loop(Box::new(b)),
+                }
+            }
+            _ => {
+                if self.rng.chance(1, 2) {
+                    St::Break
+                } else {
+                    St::Continue
+                }
+            }
+        }
+    }
+}
+
 fn canon_real(src: &str) -> Result<(String, i64), String> {
     // local_count from the AST's MainBlock
     let ast = Parser::parse(src).map_err(|e| format!("parse: {}", e))?;
@@ -312,6 +542,18 @@ fn canon_real(src: &str) -> Result<(String, i64), String> {
             let j = index_of_ip(target).ok_or_else(|| format!("jump target {} is not an instruction boundary", target))?;
             Ok(j - (idx + 1))
         };
+        // JumpBack: the byte offset is subtracted from the ip after the instruction; counted in
+        // instructions from the instruction after the JumpBack
+        let back = |offset: u16| -> Result<usize, String> {
+            let target = after
+                .checked_sub(offset as usize)
+                .ok_or_else(|| format!("jump-back target before the chunk start ({} - {})", after, offset))?;
+            let j = index_of_ip(target).ok_or_else(|| format!("jump-back target {} is not an instruction boundary", target))?;
+            if j > idx {
+                return Err(format!("jump-back target {} is ahead", target));
+            }
+            Ok(idx + 1 - j)
+        };
         use Instruction::*;
         let s = match ins {
             SetNull { register } => format!("SetNull {}", register),
@@ -342,6 +584,7 @@ fn canon_real(src: &str) -> Result<(String, i64), String> {
             Jump { offset } => format!("Jump +{}", skip(*offset)?),
             JumpIfFalse { register, offset } => format!("JumpIfFalse {} +{}", register, skip(*offset)?),
             JumpIfTrue { register, offset } => format!("JumpIfTrue {} +{}", register, skip(*offset)?),
+            JumpBack { offset } => format!("JumpBack -{}", back(*offset)?),
             other => return Err(format!("unmodelled instruction {:?}", other)),
         };
         out.push(s);
@@ -353,7 +596,7 @@ fn main() {
     kvh::quiet_panics();
     let args = Args::parse();
     let mut rep = Report::new("C01", &args);
-    rep.rule = "K2: seeded programs of the scalar/conditional core (literals, locals, unary, arithmetic, single comparisons, and/or, assignment, compound assignment, blocks, if / if-else inline and block form); distinct = distinct AST; non-trivial = at least 4 AST nodes and at least one operator or assignment".into();
+    rep.rule = "K2: seeded programs of the scalar/conditional core (literals, locals, unary, arithmetic, single comparisons, and/or, assignment, compound assignment, blocks, if / if-else inline and block form); distinct = distinct AST; non-trivial = at least 4 AST nodes and at least one operator or assignment. Second half: seeded statement programs of the loop layer (while / until / loop nested up to 3 deep, break / continue at varied depths inside ifs and not only last in their block, if / if-else with statement branches in block and inline form, bodies with assignments and compound assignments; only compiled, never run), each followed by a final expression so that every statement is in statement position; non-trivial = at least one loop and at least 6 AST nodes".into();
     let mut drv = Driver::spawn(&args.driver);
     let mut rng = Rng::new(args.seed ^ 0xC01C2);
     let n = if args.thorough() { 60000 } else { 6000 };
@@ -428,6 +671,102 @@ fn main() {
         }
     }
     rep.bump_by("model_outside_core(unassigned read)", unassigned);
+
+    // ---- statement programs: loops and loop control (Model/CompileLoop.lean) ----
+    let ns = if args.thorough() { 60000 } else { 6000 };
+    let mut sreqs = vec![];
+    let mut scases = vec![];
+    for i in 0..ns {
+        let nvars = 1 + rng.below(5);
+        let mut g = Gen { rng: &mut rng, nvars, assigned: vec![false; nvars] };
+        let mut pre: Vec<St> = vec![];
+        let npre = g.rng.below(nvars + 1);
+        for x in 0..npre {
+            let l = g.lit();
+            g.assigned[x] = true;
+            pre.push(St::Expr(E::Assign(x, Box::new(l))));
+        }
+        let nst = 1 + g.rng.below(4);
+        let depth = 1 + (i % 4);
+        let body = g.sblock(nst, depth, 0);
+        let mut prog = body;
+        for p in pre.into_iter().rev() {
+            prog = St::Seq(Box::new(p), Box::new(prog));
+        }
+        // the final expression of the main block is compiled with `Any` and returned: it keeps
+        // every statement before it in statement position (result register None)
+        let fin = g.expr(1);
+        let inline_ifs = g.rng.chance(1, 3);
+        let mut src = String::new();
+        st_render(&prog, 0, inline_ifs, &mut src);
+        stmt(&fin, 0, &mut src);
+        match kvh::catch(|| canon_real(&src)) {
+            Ok(Ok((real, lc))) => {
+                sreqs.push(format!("compileS {} {} {}", lc, st_sexp(&prog), sexp(&fin)));
+                scases.push((prog, src, real));
+            }
+            Ok(Err(e)) => {
+                real_err += 1;
+                rep.bump(&format!("stmt_real_skip={}", e.split(':').next().unwrap_or("?")));
+                if real_err <= 6 {
+                    rep.note(format!("skipped: {} :: {:?}", e, src));
+                }
+            }
+            Err(p) => {
+                rep.violation("D", "C01:K2:compiler-panic", json!({"input": src, "panic": p}));
+            }
+        }
+    }
+    let sresps = drv.batch(&sreqs);
+    let mut ks_fail = 0;
+    let mut s_unassigned = 0u64;
+    let mut s_samples = 0;
+    for (((prog, src, real), req), model) in scases.iter().zip(sreqs.iter()).zip(sresps.iter()) {
+        if model == "none" {
+            s_unassigned += 1;
+            continue;
+        }
+        let mut st = StStats::default();
+        st_stats(prog, 0, 0, true, &mut st);
+        let nloops = st.whiles + st.untils + st.loops;
+        let sz = st_size(prog);
+        rep.case(req, nloops >= 1 && sz >= 6);
+        rep.bump(&format!("stmt_size={}", (sz / 10) * 10));
+        rep.bump(&format!("stmt_loops={}", nloops.min(6)));
+        rep.bump(&format!("stmt_loop_depth={}", st.max_loop_depth));
+        rep.bump_by("stmt_kind=while", st.whiles as u64);
+        rep.bump_by("stmt_kind=until", st.untils as u64);
+        rep.bump_by("stmt_kind=loop", st.loops as u64);
+        rep.bump_by("stmt_kind=if", st.ifs as u64);
+        rep.bump_by("stmt_ctl=break", st.breaks as u64);
+        rep.bump_by("stmt_ctl=continue", st.continues as u64);
+        rep.bump_by("stmt_ctl=not_last_in_block", st.ctl_not_last as u64);
+        if st.breaks + st.continues > 0 {
+            rep.bump(&format!("stmt_ctl_if_depth={}", st.max_ctl_if_depth));
+            rep.bump(&format!("stmt_ctl_per_program={}", (st.breaks + st.continues).min(6)));
+        }
+        if real.contains("JumpBack") {
+            rep.bump("stmt_has=JumpBack");
+        }
+        if s_samples < 4 && nloops >= 2 && st.breaks + st.continues >= 1 && rep.evaluations % 89 == 5 {
+            s_samples += 1;
+            rep.sample(json!({"source": src, "request": req, "impl": real, "model": model}));
+        }
+        if real != model {
+            ks_fail += 1;
+            if ks_fail <= 5 {
+                rep.violation(
+                    "K",
+                    "K2:C01:Model.CompileLoop.compileS+flattenL",
+                    json!({"input": src, "request": req, "impl": real, "model": model,
+                           "note": "the loop-layer compiler model and the real compiler emit different code; compileS_correct / flattenL_correct no longer speak about this compiler"}),
+                );
+            }
+        }
+    }
+    rep.bump_by("stmt_model_outside_core(unassigned read)", s_unassigned);
+    rep.extra.insert("k2_stmt_programs".into(), json!(scases.len() as u64 - s_unassigned));
+    rep.extra.insert("k2_stmt_disagreements".into(), json!(ks_fail));
     rep.extra.insert("k2_disagreements".into(), json!(k_fail));
     std::process::exit(rep.finish());
 }
